@@ -81,6 +81,10 @@ func c20Scenarios(tier mc.Tier) []mc.Scenario {
 		for _, start := range []string{"new", "parsed-valid", "parsed-tampered"} {
 			for _, remote := range []bool{false, true} {
 				st := c20Start{media, start, remote}
+				depth := depth
+				if tier == mc.Quick && !remote {
+					depth = 3 // the local-signer paths differ from the remote ones only inside the inner Sign
+				}
 				var expect int64 = 0
 				p := int64(1)
 				for k := 0; k <= depth; k++ {
@@ -115,7 +119,14 @@ func c20Request(which string, st c20Start) *signature.SignRequest {
 		req.SigningTime = pki.Now.Add(-2 * time.Hour)
 		req.ExtendedSignedAttributes = []signature.Attribute{{Key: "io.example.b", Critical: true, Value: "b"}}
 	case "fail-before":
-		req.Payload.Content = nil
+		if st.remote {
+			// refused by the up-front validation for another reason: the expiry falls into the same second as the signing time
+			req.SigningTime = pki.Now.Add(-time.Hour).Truncate(time.Second).Add(200 * time.Millisecond)
+			req.Expiry = req.SigningTime.Add(600 * time.Millisecond)
+			req.Payload.Content = []byte(`{"request":"fail-before"}`)
+		} else {
+			req.Payload.Content = nil
+		}
 	case "fail-ts":
 		req.Timestamper = failingTimestamper{}
 	case "fail-after":
